@@ -274,6 +274,17 @@ func runC13(c *run.Ctx) {
 			r.Violate("c13.skew", "c13.skew:"+cell.Kind+":peers", fmt.Sprintf("%d peers", len(base.Peers)), fmt.Sprintf("%d peers", len(with.Peers)), tag)
 		}
 	}
+	// (1b) the same with stop-on-first-error when nothing severe is present at all: irrelevant documents are not errors to stop on
+	if !cell.Bad && !with.HasErr && with.Severe() == 0 && base.Severe() == 0 {
+		sb := observe.List(valid, observe.ListOpts{StopOnError: true})
+		sw := observe.List(junk, observe.ListOpts{StopOnError: true})
+		if sb.Panic == "" && sw.Panic == "" {
+			r.Ev("stop_on_error_runs_without_severe_error", 1)
+			if ok, d := relationsEqual(sb, sw); !ok || sb.HasErr != sw.HasErr {
+				r.Violate("c13.skew", "c13.skew:"+cell.Kind+":differs-with-stop-on-error", "the same connections as without the irrelevant documents (stop-on-error, no severe error present)", fmt.Sprintf("%s error=%v/%v", d, sb.HasErr, sw.HasErr), tag)
+			}
+		}
+	}
 	// (2) every malformed / unreadable item is reported as severe
 	if cell.Bad {
 		delta := with.Severe() - base.Severe()
